@@ -224,4 +224,4 @@ class MultiTag(BaseTag):
     @metadata.deleter
     def metadata(self):
         if "metadata" in self._h5group:
-            self._h5group.delete("metadata")
+            self._h5group.delete("metadata", False)
